@@ -11,7 +11,8 @@ static Case gen_C10(const GenCtx &ctx) {
   Case c;
   c.sets("prop", "C10");
   GenCtx sub = ctx;
-  o->gen(sub, c, 0);
+  o->gen(sub, c, o->views_ok ? 25 : 0);  // a share of the operands are windows (dirty memory x window placement)
+  even_offsets_for_building_blocks(c);
   // history: throw-away calls whose sizes are drawn from the dimensions of the final operation, so that the block
   // cache hands back dirty blocks of exactly the sizes the final operation allocates
   std::vector<int> dims;
@@ -112,10 +113,11 @@ static void run_history(const std::string &h) {
 static Verdict exec_C10(const Case &c) {
   Verdict r;
   bool wrap = vf_wrap_present();
-  // run 1: fresh state (empty block cache, no heap pattern)
+  // run 1: fresh state: empty block cache and every fresh heap block zero-filled, as the first call of a process that
+  // gets zero pages from the kernel would see it (the test process itself has long since recycled its heap)
   m4ri_fini();
   m4ri_init();
-  vf_wrap_set_fill(-1, -1);
+  vf_wrap_set_fill(0x00, -1);
   vf_wrap_enable(1);
   long a0 = vf_wrap_allocs();
   Verdict v1 = exec_op(c);
